@@ -166,6 +166,9 @@ pub struct ExecOpts {
     /// change by another thread (C18 outside the solo-run probes)
     #[serde(default)]
     pub try_quiet: bool,
+    /// the schedule bytes are reused cyclically (long concurrent churn runs)
+    #[serde(default)]
+    pub cyclic_schedule: bool,
 }
 
 fn default_probe_bound() -> u64 {
@@ -186,6 +189,7 @@ impl Default for ExecOpts {
             no_log: false,
             unwind_end: 0,
             try_quiet: false,
+            cyclic_schedule: false,
         }
     }
 }
@@ -1692,6 +1696,7 @@ fn run_scenario_inner(sc: &Scenario) -> Execution {
         max_steps: if long_spins { sc.opts.max_steps.max(4_000 * (sa + sy)) } else { sc.opts.max_steps },
         weak_cas_fail: sc.opts.weak_cas,
         quarantine: sc.opts.quarantine,
+        cyclic: sc.opts.cyclic_schedule,
         // only where C18 is stated: plain handles on a busy or yielding queue
         try_quiet_bound: if sc.opts.try_quiet
             && !sc.q.futures
